@@ -72,17 +72,67 @@ pub fn scenario(ctx: &mut Ctx) -> ScResult {
     if ctx.cfg.profile == "sweep" {
         return sweep(ctx);
     }
+    if ctx.cfg.profile == "lifetime" {
+        return lifetime(ctx);
+    }
+    // 1..3 connections one after the other on this node: each gets a fresh TcpBuffer, the previous
+    // one is dropped (after a connection cut: dropped while it still holds unread bytes); nothing of
+    // an earlier connection may surface in a later one
+    let conns = if ctx.ch.rare(1, 3) { ctx.ch.range(2, 3) } else { 1 };
+    for c in 0..conns {
+        if c > 0 {
+            ctx.st.inc("fault.reconnect_after_drop");
+        }
+        one_connection(ctx)?;
+    }
+    Ok(())
+}
+
+/// What this stream carries in practice: STUN messages — and things that nearly are.
+fn stun_like_payload(ctx: &mut Ctx) -> Vec<u8> {
+    let creds = crate::gen::Creds::Short("tcp".into());
+    let pool = crate::gen::gen_addr_pool(ctx.ch, 2);
+    let attrs = crate::gen::gen_attrs(ctx.ch, &pool, &crate::gen::SpecOpts { max_attrs: 2, big: 0 });
+    let variant = ctx.ch.below(8);
+    let mut m = crate::gen::MsgSpec { class: ctx.ch.below(4) as u8, method: 1, tid: crate::gen::gen_tid(ctx.ch), attrs, seals: crate::gen::seals_of(variant, &creds) }.build();
+    match ctx.ch.below(5) {
+        0 | 1 => {}
+        2 => {
+            // trailing bytes after the message (1..3, or a few more)
+            let k = *ctx.ch.pick(&[1usize, 2, 3, 4, 7]);
+            let extra = ctx.ch.bytes(k);
+            m.extend_from_slice(&extra);
+        }
+        3 => {
+            let k = ctx.ch.below(m.len() as u64) as usize;
+            m.truncate(k);
+        }
+        _ => {
+            // declared STUN length off by a little
+            let l = (((m[2] as u16) << 8) | m[3] as u16).wrapping_add(*ctx.ch.pick(&[1u16, 2, 3, 4, 0xfffc]));
+            m[2..4].copy_from_slice(&l.to_be_bytes());
+        }
+    }
+    m
+}
+
+fn one_connection(ctx: &mut Ctx) -> ScResult {
     // frames
     let nf = ctx.ch.range(1, 6) as usize;
     let mut frames: Vec<Vec<u8>> = vec![];
     let mut stream: Vec<u8> = vec![];
     for _ in 0..nf {
-        let l = frame_len(ctx);
+        let mut l = frame_len(ctx);
         // payloads that themselves look like length prefixes some of the time
         let mut p = ctx.ch.bytes(l);
         if l >= 2 && ctx.ch.rare(1, 3) {
             p[0] = 0;
             p[1] = ctx.ch.below(4) as u8;
+        }
+        if ctx.ch.rare(1, 3) {
+            p = stun_like_payload(ctx);
+            l = p.len();
+            ctx.st.inc("op.frame_with_stun_like_payload");
         }
         stream.extend_from_slice(&(l as u16).to_be_bytes());
         stream.extend_from_slice(&p);
@@ -170,7 +220,93 @@ pub fn scenario(ctx: &mut Ctx) -> ScResult {
     ctx.st.add("fault.segmentation", segs);
     ctx.st.add("out.frames_delivered", delivered as u64);
     ev!(ctx, "  {} segments, {} pulls, {} frames delivered (cut at {cut})", segs, pulls, delivered);
-    ctx.st.nontrivial = segs >= 2 || frames.len() >= 2;
+    if cut < stream.len() && pos > 0 {
+        ctx.st.inc("probe.buffer_dropped_with_unread_bytes");
+    }
+    ctx.st.nontrivial = ctx.st.nontrivial || segs >= 2 || frames.len() >= 2;
+    Ok(())
+}
+
+/// Profile `lifetime`: one long-lived connection.  More than 2^32 bytes pass through a single
+/// `TcpBuffer` (65 600 maximum-size frames and change), with the chunking varied along the way and
+/// most densely around the point where the cumulative byte count crosses 2^32 (and 2^31).  The frame
+/// model is kept incrementally (the expected frame is known by construction), so the run costs a few
+/// seconds of memory traffic.
+fn lifetime(ctx: &mut Ctx) -> ScResult {
+    let mut tb = g("TcpBuffer::new", TcpBuffer::new)?;
+    let big = 65_535usize;
+    let mut frame = vec![0u8; 2 + big];
+    frame[0] = 0xff;
+    frame[1] = 0xff;
+    for (i, b) in frame.iter_mut().enumerate().skip(10) {
+        *b = (i as u8).wrapping_mul(31).wrapping_add(7);
+    }
+    let mut total: u64 = 0;
+    let mut pulls = 0u64;
+    let vary_every = ctx.ch.range(1500, 4000);
+    let target: u64 = (1u64 << 32) + 70 * 65_537;
+    let mut i: u64 = 0;
+    let bad = |ctx: &mut Ctx, what: &str, i: u64, total: u64| {
+        let v = Violation::new("C14", "pull_returns_next_frame", "long_lived_connection", format!("frame #{i} (after {total} bytes through this buffer): {what}"));
+        ev!(ctx, "  !! {}", v.message);
+        v
+    };
+    while total < target {
+        frame[2..10].copy_from_slice(&i.to_be_bytes());
+        let near_wrap = |t: u64| (t.wrapping_add(200_000) & 0x7fff_ffff) < 400_000 && t > 1_000_000;
+        let vary = i % vary_every == 0 || near_wrap(total);
+        if !vary {
+            g("TcpBuffer::push_data", || tb.push_data(&frame))?;
+            total += frame.len() as u64;
+            let got = g("TcpBuffer::pull_data", || tb.pull_data())?;
+            pulls += 1;
+            if got.as_deref() != Some(&frame[2..]) {
+                return Err(bad(ctx, "the complete frame that was pushed was not returned unaltered", i, total));
+            }
+        } else {
+            // variation: the frame arrives in two chunks with a pull in between (must be None), then
+            // two smaller frames arrive in one chunk (two pulls), then a pull on the empty buffer
+            let cutp = match ctx.ch.below(4) {
+                0 => 1,
+                1 => 2,
+                2 => frame.len() - 1,
+                _ => ctx.ch.range(1, frame.len() as u64 - 1) as usize,
+            };
+            g("TcpBuffer::push_data", || tb.push_data(&frame[..cutp]))?;
+            if g("TcpBuffer::pull_data", || tb.pull_data())?.is_some() {
+                return Err(bad(ctx, "pull returned a frame while only part of it had arrived", i, total));
+            }
+            g("TcpBuffer::push_data", || tb.push_data(&frame[cutp..]))?;
+            total += frame.len() as u64;
+            let got = g("TcpBuffer::pull_data", || tb.pull_data())?;
+            if got.as_deref() != Some(&frame[2..]) {
+                return Err(bad(ctx, "frame delivered in two chunks was not returned unaltered", i, total));
+            }
+            let l1 = *ctx.ch.pick(&[40_000usize, 0, 1, 3]);
+            let l2 = *ctx.ch.pick(&[40_000usize, 2, 0]);
+            let mut two = vec![];
+            two.extend_from_slice(&(l1 as u16).to_be_bytes());
+            two.extend(std::iter::repeat(0xA1).take(l1));
+            two.extend_from_slice(&(l2 as u16).to_be_bytes());
+            two.extend(std::iter::repeat(0xB2).take(l2));
+            g("TcpBuffer::push_data", || tb.push_data(&two))?;
+            total += two.len() as u64;
+            let a = g("TcpBuffer::pull_data", || tb.pull_data())?;
+            let b = g("TcpBuffer::pull_data", || tb.pull_data())?;
+            let c = g("TcpBuffer::pull_data", || tb.pull_data())?;
+            if a.as_deref() != Some(&vec![0xA1u8; l1][..]) || b.as_deref() != Some(&vec![0xB2u8; l2][..]) || c.is_some() {
+                return Err(bad(ctx, "two frames pushed in one chunk were not returned as exactly those two frames", i, total));
+            }
+            pulls += 5;
+            ctx.st.inc("op.lifetime_variation");
+        }
+        i += 1;
+    }
+    ctx.st.add("op.pull", pulls);
+    ctx.st.add("out.frames_delivered", i);
+    ctx.st.inc("probe.more_than_4GiB_through_one_buffer");
+    ev!(ctx, "  long-lived connection: {i} frames, {total} bytes through one TcpBuffer");
+    ctx.st.nontrivial = true;
     Ok(())
 }
 
